@@ -103,7 +103,9 @@ def candidates(scn):
             c = copy.deepcopy(scn)
             c['init']['pwm'] = None
             yield 'default pwm', c
-    # 7. drop optional gear data
+    # 7. simpler numbers
+    yield from simplify_numbers(scn)
+    # 8. drop optional gear data
     for i, e in enumerate(scn['elements']):
         for p in ('E', 'b', 'm', 'd'):
             if e.get(p) is not None:
@@ -116,6 +118,76 @@ def candidates(scn):
                 if p == 'b' and 'E' in e:
                     c['elements'][i]['E'] = None
                 yield f'element {i}: drop {p}', c
+
+
+def _quantity_sites(scn):
+    """(container, key, kind) of every [value, unit] quantity of a scenario."""
+    from . import refmodel as rm
+    sites = []
+    for e in scn.get('elements', []):
+        for p, kind in rm.PARAM_KIND.items():
+            if e.get(p) is not None:
+                sites.append((e, p, kind))
+    init = scn.get('init')
+    if init:
+        sites.append((init, 'position', 'AngularPosition'))
+        sites.append((init, 'speed', 'AngularSpeed'))
+    for op in scn.get('schedule', []):
+        if op['op'] == 'run':
+            sites.append((op, 'dt', 'TimeInterval'))
+            if op.get('T') is not None:
+                sites.append((op, 'T', 'TimeInterval'))
+    for rule in scn.get('rules', []) or []:
+        for key, kind in (('start', 'Time'), ('duration', 'TimeInterval'),
+                          ('target', 'AngularPosition'), ('brake', 'Angle'),
+                          ('limit', 'Current')):
+            if key in rule:
+                sites.append((rule, key, kind))
+    for ss in scn.get('stops', []) or []:
+        sites.append((ss, 'thr', {'encoder': 'AngularPosition',
+                                  'tachometer': 'AngularSpeed',
+                                  'amperometer': 'Current'}[ss['sensor']]))
+    return sites
+
+
+def simplify_numbers(scn):
+    """Whole-scenario simplifications: SI units everywhere, then magnitudes
+    rounded to three significant digits."""
+    from . import si
+    # 1. every quantity in the SI unit of its kind
+    c = copy.deepcopy(scn)
+    changed = False
+    for box, key, kind in _quantity_sites(c):
+        q = box[key]
+        u = si.SI_UNIT[kind]
+        if q[1] != u:
+            box[key] = [q[0] * si.factor(kind, q[1]), u]
+            changed = True
+    if c.get('load') and c['load'].get('unit') != 'Nm':
+        c['load']['unit'] = 'Nm'
+        changed = True
+    if changed:
+        yield 'all quantities in SI units', c
+    # 2. rounded magnitudes (mated gears keep equal values: same literal)
+    c = copy.deepcopy(scn)
+    changed = False
+    for box, key, kind in _quantity_sites(c):
+        q = box[key]
+        if isinstance(q[0], float) and q[0] != 0:
+            r = float(f'{q[0]:.3g}')
+            if r != q[0] and r != 0:
+                box[key] = [r, q[1]]
+                changed = True
+    for op in c.get('schedule', []):
+        if op['op'] == 'run' and op.get('T') is not None:
+            op['T_mode'] = 'product'
+            op.pop('T', None)
+    for t in (c.get('load') or {}).get('terms', []):
+        for k2, v2 in list(t.items()):
+            if isinstance(v2, float) and v2 != 0:
+                t[k2] = float(f'{v2:.3g}')
+    if changed:
+        yield 'magnitudes rounded to 3 significant digits', c
 
 
 def chain_cuts(scn):
